@@ -139,7 +139,7 @@ Fixpoint parse_tokens (ts : list token) (s : lp) (para : list text) (cfgs : list
     | Some t => let para' := para ++ [t] in parse_tokens r (set_title s (join_nl para')) para' cfgs
     | None => parse_tokens r s [] cfgs
     end
-  | TVerb _ lang _ :: r => match lang with [] => LErr | _ => parse_tokens r s para cfgs end
+  | TVerb _ lang _ :: r => match lang with [] => LErr | _ => parse_tokens r s [] cfgs end      (* a code block ends the paragraph before it *)
   | TTest cfg cm code _ :: r =>
     if match cfg with Some c => cfg_ok c | None => true end then
       match feed_code s code with
